@@ -23,9 +23,14 @@
 //!    sibling selected = the match's own start / end); in particular p <= match.start and
 //!    p + d >= match.end. Where a zero-width (MISSING) node sits among the siblings only these
 //!    bounds are asserted (sibling enumeration next to zero-width nodes is not covered by any
-//!    statement; C19 restricts its sibling clauses the same way);
-//!  * `replace_all` edits: one per outermost match (pre-order, a match hides its descendants),
-//!    p_i + d_i <= p_{i+1};
+//!    statement; C19 restricts its sibling clauses the same way), and likewise where the
+//!    tree-sitter cursor walk behind Node::prev_all / next_all disagrees with the parent's child
+//!    list about the matched node's siblings (node, extent or kind: C19's known finding; c05 does
+//!    the same) - both are counted in the evidence;
+//!  * `replace_all` edits: one per outermost match (pre-order, a match hides its descendants;
+//!    with an expanding fixer: paired in order with a subsequence of them), p_i + d_i <= p_{i+1};
+//!    `replace` / `replace_all` with a fixer may yield the match itself or the expanded range
+//!    (which one is C08's question);
 //!  * the bytes obtained by applying the kept edits (an edit beginning before the end of the
 //!    previously kept one is dropped, as the CLI does) with `AstGrep::edit` from last to first
 //!    equal `refs::splice(source, edits)`, are valid UTF-8 and have length n - sum d + sum |t|;
@@ -120,6 +125,7 @@ struct Stats {
   p2_edits_widened: AtomicU64,
   p2_overlaps_dropped: AtomicU64,
   p2_exact_model_not_applicable: AtomicU64,
+  p2_sibling_api_disagrees: AtomicU64,
   p2_front_edits: AtomicU64,
   p3_evals: AtomicU64,
   p3_matches: AtomicU64,
@@ -558,19 +564,25 @@ fn ref_range(model: &FixM, m: &Node<D>) -> Option<(usize, usize)> {
   Some((s, e))
 }
 
-/// characterisation of one known cause of a wrong expansion: the observed boundary is that of a
-/// node which is not a sibling but a descendant of a sibling covering the same bytes, and that
-/// descendant satisfies the expansion rule (Node::prev_all / next_all can yield such nodes)
-fn same_range_descendant_explains(exp: &ExpM, sibs: &[Node<D>], boundary: usize, is_start: bool) -> bool {
-  for sb in sibs {
-    let mut d = sb.clone();
-    loop {
-      let Some(c) = children_vec(&d).into_iter().find(|c| c.range() == d.range()) else { break };
-      d = c;
-      let at = if is_start { d.range().start } else { d.range().end };
-      if at == boundary && exp.rule.match_node(d.clone()).is_some() {
-        return true;
-      }
+/// tree-sitter's cursor-based sibling walk (Node::prev_all / next_all, which the expansions use)
+/// disagrees with the parent's child list around this node: other node (a same-range descendant
+/// of a sibling) or other kind (an aliased kind is lost). That is the parser library disagreeing
+/// with itself (C19's known finding, c05 skips such trees as well): the exact sibling model is
+/// not judged there, the case is counted
+fn sibling_api_disagrees(m: &Node<D>, before: &[Node<D>], after: &[Node<D>], check_before: bool, check_after: bool) -> bool {
+  let key = |x: &Node<D>| (x.node_id(), x.range(), x.kind_id());
+  if check_before {
+    let a: Vec<_> = m.prev_all().take(1000).map(|x| key(&x)).collect();
+    let b: Vec<_> = before.iter().map(key).collect();
+    if a != b {
+      return true;
+    }
+  }
+  if check_after {
+    let a: Vec<_> = m.next_all().take(1000).map(|x| key(&x)).collect();
+    let b: Vec<_> = after.iter().map(key).collect();
+    if a != b {
+      return true;
     }
   }
   false
@@ -682,27 +694,13 @@ fn part2_configs(spec: &LangSpec, a: &Atoms) -> Vec<Value> {
   out
 }
 
-/// second characterisation: the sibling iterator (prev_all / next_all) shows a true sibling
-/// under another kind than the parent's child list does (an aliased kind is lost), and under
-/// that kind it satisfies the expansion rule
-fn iterator_kind_explains(exp: &ExpM, m: &Node<D>, sibs: &[Node<D>], boundary: usize, is_start: bool) -> bool {
-  let seen: Vec<Node<D>> = if is_start { m.prev_all().collect() } else { m.next_all().collect() };
-  for y in seen {
-    let at = if is_start { y.range().start } else { y.range().end };
-    if at != boundary {
-      continue;
-    }
-    if sibs.iter().any(|s| s.node_id() == y.node_id() && s.kind_id() != y.kind_id()) && exp.rule.match_node(y.clone()).is_some() {
-      return true;
-    }
-  }
-  false
-}
-
 enum Verdict {
   Ok,
   Widened,
+  /// zero-width node among the siblings: bounds only
   BoundsOnly,
+  /// sibling iterator disagrees with the child list: bounds only
+  SiblingApi,
   Bad(String),
 }
 
@@ -736,19 +734,16 @@ fn judge(cfg: &Cfg2, m: &Node<D>, e: &Ed, strict: bool) -> Verdict {
   let Some((rs, re)) = ref_range(&cfg.model, m) else {
     return Verdict::BoundsOnly;
   };
-  if p != rs || q != re {
-    let (which, exp, boundary) = if p != rs { ("start", cfg.model.start.as_ref(), p) } else { ("end", cfg.model.end.as_ref(), q) };
-    let is_start = which == "start";
-    let mut tag = "";
-    if let (Some(x), Some((before, after))) = (exp, sibling_lists(m)) {
-      let sibs = if is_start { &before } else { &after };
-      if same_range_descendant_explains(x, sibs, boundary, is_start) {
-        tag = ":boundary-of-a-same-range-descendant-of-a-sibling";
-      } else if iterator_kind_explains(x, m, sibs, boundary, is_start) {
-        tag = ":sibling-seen-under-another-kind-by-the-sibling-iterator";
-      }
+  if let Some((before, after)) = sibling_lists(m) {
+    if sibling_api_disagrees(m, &before, &after, cfg.model.start.is_some(), cfg.model.end.is_some()) {
+      return Verdict::SiblingApi;
     }
-    return Verdict::Bad(format!("expansion:{which}-differs-from-sibling-model{tag}"));
+  }
+  if p != rs {
+    return Verdict::Bad("expansion:start-differs-from-sibling-model".into());
+  }
+  if q != re {
+    return Verdict::Bad("expansion:end-differs-from-sibling-model".into());
   }
   if (p, q) != (ms, me) {
     Verdict::Widened
@@ -782,7 +777,8 @@ fn part2_source(rep: &Reporter, st: &Stats, samples: &Samp, spec: &LangSpec, src
       c["edit"] = ed_json(e);
       c["match"] = json!([m.range().start, m.range().end]);
       c["reference_range"] = json!(guarded(Aus(|| ref_range(&cfg.model, m))).ok().flatten());
-      viol(rep, &format!("{front}:{what}"), c);
+      // cause first, front end last: one prefix names a cause across the three front ends
+      viol(rep, &format!("p2:{what}:{front}"), c);
     };
     // --- the CLI's way: make_edit for every match
     let mut edits = vec![];
@@ -811,6 +807,9 @@ fn part2_source(rep: &Reporter, st: &Stats, samples: &Samp, spec: &LangSpec, src
           Ok(Verdict::BoundsOnly) => {
             st.p2_exact_model_not_applicable.fetch_add(1, Relaxed);
           }
+          Ok(Verdict::SiblingApi) => {
+            st.p2_sibling_api_disagrees.fetch_add(1, Relaxed);
+          }
           Ok(Verdict::Widened) => {
             st.p2_edits_widened.fetch_add(1, Relaxed);
             let r = m.range();
@@ -818,7 +817,7 @@ fn part2_source(rep: &Reporter, st: &Stats, samples: &Samp, spec: &LangSpec, src
               samples.p2.offer(|| json!({"part": 2, "lang": spec.name, "src": src, "fix": cfg.json["fix"], "rule": cfg.json["rule"], "match": [r.start, r.end], "edit": ed_json(e)}));
             }
           }
-          Ok(Verdict::Bad(what)) => report("p2:make_edit", &what, e, m.get_node()),
+          Ok(Verdict::Bad(what)) => report("make_edit", &what, e, m.get_node()),
         }
       }
       fc.check_file("p2:make_edit", &edits, false, &case);
@@ -844,17 +843,58 @@ fn part2_source(rep: &Reporter, st: &Stats, samples: &Samp, spec: &LangSpec, src
       Ok(es) => {
         st.p2_front_edits.fetch_add(es.len() as u64, Relaxed);
         let wf = fc.wf_all("p2:replace_all", &es, &case);
-        if es.len() != outer.len() {
-          let mut c = case();
-          c["edits"] = eds_json(&es);
-          c["outermost_matches"] = json!(outer.iter().map(|n| (n.range().start, n.range().end)).collect::<Vec<_>>());
-          viol(rep, "p2:replace_all:not-one-edit-per-outermost-match", c);
-        } else if wf {
-          for (e, n) in es.iter().zip(&outer) {
-            if let Ok(Verdict::Bad(what)) = guarded(Aus(|| judge(cfg, n, e, false))) {
-              report("p2:replace_all", &what, e, n);
+        if !cfg.expands {
+          if es.len() != outer.len() {
+            let mut c = case();
+            c["edits"] = eds_json(&es);
+            c["outermost_matches"] = json!(outer.iter().map(|n| (n.range().start, n.range().end)).collect::<Vec<_>>());
+            viol(rep, "p2:replace_all:not-one-edit-per-outermost-match", c);
+          } else if wf {
+            for (e, n) in es.iter().zip(&outer) {
+              if let Ok(Verdict::Bad(what)) = guarded(Aus(|| judge(cfg, n, e, false))) {
+                report("replace_all", &what, e, n);
+              }
             }
           }
+        } else if wf {
+          // with expansions an edit may swallow later matches (and an implementation may then
+          // leave those without edit): every edit must be acceptable for one of the outermost
+          // matches, taken in order
+          let mut k = 0;
+          for e in &es {
+            let from = k;
+            let mut found = false;
+            let mut first_bad: Option<(String, usize)> = None;
+            while k < outer.len() {
+              let n = &outer[k];
+              k += 1;
+              match guarded(Aus(|| judge(cfg, n, e, false))) {
+                Ok(Verdict::Bad(w)) => {
+                  if first_bad.is_none() {
+                    first_bad = Some((w, k - 1));
+                  }
+                }
+                _ => {
+                  found = true;
+                  break;
+                }
+              }
+            }
+            if !found {
+              match first_bad {
+                Some((w, i)) => report("replace_all", &w, e, &outer[i]),
+                None => {
+                  let mut c = case();
+                  c["edit"] = ed_json(e);
+                  c["matches_already_paired"] = json!(from);
+                  viol(rep, "p2:replace_all:expanding-fixer:edit-without-a-match", c);
+                }
+              }
+              break;
+            }
+          }
+        }
+        if wf {
           fc.check_file(ra, &es, true, &case);
         }
       }
@@ -885,7 +925,7 @@ fn part2_source(rep: &Reporter, st: &Stats, samples: &Samp, spec: &LangSpec, src
           }
           if let Some(Some((what, n))) = verdicts.first() {
             // acceptable for no match: report against the first match (replace = first match)
-            report("p2:replace", what, &one[0], n);
+            report("replace", what, &one[0], n);
           }
           fc.check_file("p2:replace", &one, true, &case);
         }
@@ -1352,7 +1392,7 @@ fn main() {
     "samples": samples.take(),
     "exhaustive": true,
     "part1": {"pairs": g(&st.p1_evals), "pairs_with_edits": g(&st.p1_with_edits), "replace_all_edits_checked": g(&st.p1_edits), "replace_edits_checked": g(&st.p1_replace)},
-    "part2": {"pairs": g(&st.p2_evals), "pairs_with_matches": g(&st.p2_with_matches), "make_edit_edits_checked": g(&st.p2_edits), "edits_widened_by_an_expansion": g(&st.p2_edits_widened), "expansion_edits_next_to_zero_width_siblings_judged_by_bounds_only": g(&st.p2_exact_model_not_applicable), "edit_lists_with_dropped_overlaps": g(&st.p2_overlaps_dropped), "replace_all_and_replace_edits_checked": g(&st.p2_front_edits)},
+    "part2": {"pairs": g(&st.p2_evals), "pairs_with_matches": g(&st.p2_with_matches), "make_edit_edits_checked": g(&st.p2_edits), "edits_widened_by_an_expansion": g(&st.p2_edits_widened), "expansion_edits_next_to_zero_width_siblings_judged_by_bounds_only": g(&st.p2_exact_model_not_applicable), "expansion_edits_where_sibling_iterator_disagrees_with_child_list_judged_by_bounds_only": g(&st.p2_sibling_api_disagrees), "edit_lists_with_dropped_overlaps": g(&st.p2_overlaps_dropped), "replace_all_and_replace_edits_checked": g(&st.p2_front_edits)},
     "part3": {"pairs": g(&st.p3_evals), "outer_matches": g(&st.p3_matches), "judged_exact": g(&st.p3_judged_exact), "judged_modulo_blanks_multiline": g(&st.p3_judged_modulo_indent), "judged_with_a_replacement": g(&st.p3_rewritten), "judged_with_dropped_overlapping_rewriter_edit": g(&st.p3_with_dropped_overlap), "not_judged_rewriter_edit_leaves_captured_text": g(&st.p3_escaping_not_judged), "empty_capture": g(&st.p3_empty_capture), "recomputed_rewriter_edits": g(&st.p3_rewriter_edits)},
     "edit_lists_applied_with_AstGrep_edit": g(&st.applied_real),
     "of_which_on_non_ascii_sources": g(&st.applied_multibyte),
@@ -1366,6 +1406,9 @@ fn main() {
     vec![
       "a pattern that yields no edit for the first template is not tried with the other templates (matching does not depend on the template)".into(),
       "expansion rules are regex/kind atoms that do not refer to meta-variables; whether a sibling satisfies an expansion or stop rule is decided by the real rule matcher on that sibling, the sibling list model (order, stopBy, fallback) is the reference".into(),
+      "where Node::prev_all / next_all of the matched node (in a direction that has an expansion) disagree with the parent's child list in node identity, extent or kind (tree-sitter cursor walk vs child list: C19's known finding) the exact sibling model is not applied, only the bounds; counted in part2".into(),
+      "next to zero-width (MISSING) siblings the exact sibling model is not applied, only the bounds p <= match.start, p + d >= match.end (counted in part2)".into(),
+      "replace_all / replace with a fixer: an edit is accepted if it is the match itself or the expanded range (C08 decides which); with an expanding fixer replace_all edits must pair in order with a subsequence of the outermost matches, without expansions with all of them".into(),
       "the transformed string is read from the match environment; a multi-line result is compared modulo spaces and tabs because the stored value is re-indented (C07)".into(),
       "when a recomputed rewriter edit reaches outside the captured text the statement fixes no result: only the absence of a panic is asserted".into(),
       "the rewriter's own fix output at a node is taken from the same rule loaded stand-alone (its well-formedness is checked like any other edit)".into(),
